@@ -1,6 +1,7 @@
 package main
 
 import (
+	"regexp"
 	"fmt"
 	"go/token"
 	"go/types"
@@ -124,6 +125,7 @@ func (u *Unit) execCall(st *State, instr ssa.Instruction, common *ssa.CallCommon
 		}
 		return u.havocCall(st, instr, name, callee, resTypes)
 	}
+	defer u.assertsAfterWrites(st, instr, c.GhostWrites)
 	defer u.ghostAfterCall(st, instr, name)
 	if c.Extern {
 		u.usedExternal[name] = true
@@ -161,8 +163,55 @@ func (u *Unit) havocCall(st *State, instr ssa.Instruction, name string, callee *
 	for i, t := range resTypes {
 		rs = append(rs, u.freshOf(st, fmt.Sprintf("r%d_%s", i, shortName(name)), t))
 	}
+	// ghost state: a /repo function without contract may run any ghost update; an external one may change
+	// the ghost state that models the world outside the program
+	inRepo := callee != nil && u.eng.inRepo(calleePkg(callee))
+	var written []string
+	for _, gv := range u.eng.contracts.GhostGlobals {
+		if cur, ok := st.ghost[gv.Name]; ok && (inRepo || gv.External) {
+			nv := u.fresh(st, "ghost_"+gv.Name, cur.Sort, nil)
+			nv.T = cur.T
+			st.ghost[gv.Name] = nv
+			written = append(written, gv.Name)
+		}
+	}
+	u.assertsAfterWrites(st, instr, written)
 	u.afterCall(st, name)
 	return rs
+}
+
+// assertsAfterWrites: `assert after writes of G: expr` is an invariant of the ghost state G that is proved
+// after every call that may change G — with G changed only by calls, that is every program point.
+func (u *Unit) assertsAfterWrites(st *State, instr ssa.Instruction, written []string) {
+	if u.contract == nil || len(written) == 0 {
+		return
+	}
+	for _, a := range u.contract.Asserts {
+		if !strings.HasPrefix(a.Where, "after writes of ") {
+			continue
+		}
+		want := strings.TrimSpace(strings.TrimPrefix(a.Where, "after writes of "))
+		hit := false
+		for _, w := range written {
+			if w == want {
+				hit = true
+			}
+		}
+		if !hit {
+			continue
+		}
+		ctx := u.newCtx(st, u.entry)
+		u.bindLocals(ctx, st, instr.Block())
+		g := ctx.eval(a.Clause.Expr)
+		s2 := st
+		if len(ctx.side) > 0 {
+			s2 = st.clone()
+			for _, s := range ctx.side {
+				s2.assume(s)
+			}
+		}
+		u.oblige(s2, "assert", instr.Pos(), g, "after every change of "+want+": "+a.Clause.Text, a.Clause.Tags)
+	}
 }
 
 func calleePkg(f *ssa.Function) *types.Package {
@@ -396,6 +445,14 @@ func (u *Unit) detResult(c *Contract, i int, args []Term) Term {
 	r := app(name, rs, args...)
 	r.T = rt
 	u.detAxiom(c)
+	if c.Extern {
+		// declared laws of an external function used as a spec function (assumed, listed in the evidence)
+		k := c.Key
+		if j := strings.LastIndex(k, "."); j >= 0 {
+			k = k[j+1:]
+		}
+		u.useAxiomsFor(k, fmt.Sprintf("(det_%s_%s_", sanitize(shortName(c.Pkg)), sanitize(c.Key)))
+	}
 	return r
 }
 
@@ -471,7 +528,10 @@ func (u *Unit) detAxiom(c *Contract) {
 }
 
 // useAxioms adds the declared axioms that mention an uninterpreted spec function.
-func (u *Unit) useAxioms(uf string) {
+func (u *Unit) useAxioms(uf string) { u.useAxiomsFor(uf, "(uf_"+uf+" ") }
+
+// useAxiomsFor: subject is the SMT symbol whose occurrence in a query makes the axiom relevant.
+func (u *Unit) useAxiomsFor(uf string, subject string) {
 	if u.axiomsUsed == nil {
 		u.axiomsUsed = map[string]bool{}
 	}
@@ -490,7 +550,12 @@ func (u *Unit) useAxioms(uf string) {
 		ctx := &EvalCtx{u: u, st: u.entry, bound: map[string]bool{}, vars: map[string]Term{}}
 		ctx.pkg = u.eng.pkgByPath(ax.Pkg)
 		g := ctx.eval(ax.Clause.Expr)
-		u.pre.axiomFor("(uf_"+uf+" ", g.S)
+		// relevant to a query that mentions any spec function of the axiom
+		subj := map[string]bool{subject: true}
+		for _, m := range regexp.MustCompile(`\((uf|det)_[A-Za-z0-9_]+ `).FindAllString(g.S, -1) {
+			subj[m] = true
+		}
+		u.pre.axiomFor(strings.Join(sortedKeys(subj), "|"), g.S)
 		u.usedExternal["axiom "+ax.Name+": "+ax.Clause.Text] = true
 	}
 }
@@ -807,7 +872,7 @@ func (u *Unit) assertsAtCall(st *State, instr ssa.Instruction, name string) {
 			continue
 		}
 		want := strings.TrimSpace(strings.TrimPrefix(a.Where, "call of "))
-		if shortName(name) != want && !strings.HasSuffix(name, "."+want) && !strings.HasSuffix(name, ")."+want) {
+		if shortName(name) != want && !strings.HasSuffix(name, "."+want) && !strings.HasSuffix(name, ")."+want) && !strings.HasSuffix(name, "/"+want) {
 			continue
 		}
 		ctx := u.newCtx(st, u.entry)
